@@ -110,18 +110,19 @@ fn extract_class(
     .iter()
     .enumerate()
     .map(|(i, stmt)| {
-        // function two further to leave place for init
+        // function two further to leave place for init; positions are spread by three so that
+        // neither two statements nor the init placed after the last variable share a position
         let (pos, key) = match stmt {
-            Core::FunDef { id, .. } => (i + 2, Core::Id { lit: id.clone() }),
+            Core::FunDef { id, .. } => (3 * (i + 2) - 1, Core::Id { lit: id.clone() }),
             Core::FunDefOp { op, .. } => (
-                i + 2,
+                3 * (i + 2) - 1,
                 Core::Id {
                     lit: format!("{op}"),
                 },
             ),
-            Core::VarDef { var, .. } => (i, var.deref().clone()),
+            Core::VarDef { var, .. } => (3 * i, var.deref().clone()),
             _ => (
-                i,
+                3 * i,
                 Core::Id {
                     lit: String::from("@"),
                 },
@@ -149,7 +150,7 @@ fn extract_class(
                 .filter(|(_, stmt)| matches!(stmt, Core::VarDef { .. }))
                 .map(|(pos, _)| *pos + 1)
                 .max()
-                .unwrap_or(0) // otherwise always first
+                .unwrap_or(1) // otherwise first, after a leading statement that is no definition
         };
 
         body_name_stmts.insert(init, (pos, new_init));
